@@ -31,6 +31,14 @@ use crate::{Counter, Gauge, Histogram, Key, KeyName, Metadata, SharedString, Uni
 static NOOP_RECORDER: NoopRecorder = NoopRecorder;
 static GLOBAL_RECORDER: RecorderOnceCell = RecorderOnceCell::new();
 
+/// Verification hook (absent from normal builds): puts the global cell back to "no recorder
+/// installed" between simulated runs. The recorder installed before stays leaked, as `set` left it.
+#[cfg(metrics_verif)]
+#[doc(hidden)]
+pub fn __verif_reset_global_recorder() {
+    GLOBAL_RECORDER.__verif_reset();
+}
+
 thread_local! {
     static LOCAL_RECORDER: Cell<Option<NonNull<dyn Recorder>>> = Cell::new(None);
 }
